@@ -393,6 +393,15 @@ func (m *malRun) send(req map[string]interface{}) error {
 			r.Nodes = append(r.Nodes, siNode(n))
 		}
 		return m.rmp.UpdateNode(r)
+	case "conf":
+		// a configuration update that carries the configuration in force (nothing may change) under the registered, an
+		// empty or an unknown policy group; run synchronously through the guarded hook (the RM proxy hands the event to
+		// the scheduler's event goroutine and waits for the answer)
+		ok, reason := m.d.s.cc.VerifConfigUpdateFor(rm, jsonStr(req["pg"]), m.d.s.conf, nil)
+		if !ok {
+			return fmt.Errorf("update of configuration failed: %v", reason)
+		}
+		return nil
 	}
 	panic("mal: unknown request type " + jsonStr(req["t"]))
 }
@@ -988,6 +997,14 @@ func (m *malRun) genRequest() map[string]interface{} {
 			return 3
 		}
 		return 0
+	}
+	// now and then a configuration update that carries the configuration in force, under the registered, an empty or an
+	// unknown policy group: it changes nothing and must be answered
+	if c.chance(0.03) {
+		req["t"] = "conf"
+		req["rm"] = coreRM
+		req["pg"] = []string{"policygroup", "", "other-group"}[c.pick(3)]
+		return req
 	}
 	switch m.w(32, 30, 12, 8, 18) {
 	case 0:
